@@ -83,6 +83,12 @@ def run(chk, replay=None):
                 chk.disagree('changed-leaf projection', {'cfg': cfg.describe(), 'input': l.decode('utf-8', 'replace')}, str(pi)[:400], str(pm)[:400])
             if not isinstance(io, bytes): continue
             tout = jtree.parse(io)
+            if tout is None:
+                # the input was a JSON object and what was emitted for it is not JSON at all: some replacement was not written as a JSON value of the kind
+                # of what it replaced (e.g. a replacement text with a quote or a backslash in it written unescaped)
+                chk.violate('the emitted line is not valid JSON: a replacement was not written as a value of the type it replaces',
+                            {'cfg': cfg.describe(), 'input': l.decode('utf-8', 'replace'), 'output': io.decode('utf-8', 'replace')[:600]}, tags=['invalid-output'])
+                continue
             ch = changed_leaves(tin, tout) if tout is not None else None
             if ch is None: continue   # shape is C03's business
             for (ip, kp, kind, val), (_, _, okind, oval) in ch:
